@@ -67,6 +67,13 @@ class Check:
         print(f'[{time.time() - self.t0:7.1f}s] {name}: ' + ', '.join(f'{k}={v}' for k, v in kw.items())[:300])
         sys.stdout.flush()
 
+    def extended(self, name, ok, detail=''):
+        """Coverage beyond the listed properties (specification growth): recorded in the evidence and printed as a NOTE,
+        never as a VIOLATION of the property whose check hosts it."""
+        self.cov.setdefault('extended_coverage', {})[name] = dict(ok=bool(ok), detail=detail)
+        if not ok:
+            self.note(f'extended-coverage FAILED {name}: {detail}')
+
     def note(self, msg):
         print('NOTE ' + msg)
         self.notes.append(msg)
